@@ -47,17 +47,19 @@ PROPS = {
               ["Zap.C07_run", "Zap.C07_count", "Zap.C07_live", "Zap.C07_replace"], POST_FILES),
     "C08": _p([{"gen": "C08"}], ["ZapProofs.Props.C08"],
               ["Zap.C08_dict", "Zap.C08_stale_1hit_counterexample", "Zap.C08_merge_writes_wf"], MERGE_FILES),
-    "C10": _p([{"gen": "C10"}, {"gen": "C10", "vectors": True, "seed_offset": 13}], [], []),
-    "C11": _p([{"gen": "C11"}], [], []),
+    "C10": _p([{"gen": "C10"}, {"gen": "C10", "vectors": True, "seed_offset": 13},
+               {"gen": "C10", "race": True, "seed_offset": 29, "n": {"quick": 12, "thorough": 200}}], [], []),
+    "C11": _p([{"gen": "C11"}, {"gen": "C11", "race": True, "seed_offset": 29, "n": {"quick": 12, "thorough": 200}}], [], []),
     "C12": _p([{"gen": "C12"}, {"gen": "C12", "vectors": True, "seed_offset": 13}], [], []),
     "C13": _p([{"gen": "C13"}], [], []),
     "C17": _p([{"gen": "C17"}], [], []),
     "C18": _p([{"gen": "C18"}], [], []),
-    "C20": _p([{"gen": "C20"}], [], []),
+    "C20": _p([{"gen": "C20"}, {"gen": "C20", "race": True, "seed_offset": 29, "n": {"quick": 5, "thorough": 9}}], [], []),
     "C09": _p([{"frozen": "default"}, {"frozen": "vectors", "vectors": True}], [], []),
     "C14": _p([{"gen": "C14", "vectors": True}], [], [], replay_vectors=True),
     "C15": _p([{"gen": "C15", "vectors": True}], [], [], replay_vectors=True),
-    "C16": _p([{"gen": "C16", "vectors": True}], [], [], replay_vectors=True),
+    "C16": _p([{"gen": "C16", "vectors": True},
+               {"gen": "C16", "vectors": True, "race": True, "seed_offset": 29, "n": {"quick": 20, "thorough": 300}}], [], [], replay_vectors=True),
     "C19": _p([{"gen": "C19", "vectors": True}], [], [], replay_vectors=True),
 }
 
